@@ -43,6 +43,14 @@ theorem segmentsAux_bound (n : Nat) (hn : 0 < n) : ∀ (fuel : Nat) (s : List Ch
         · rw [List.length_take]; omega
       · exact ih _ _ h
 
+theorem restoreConstant_filterPickle {M Y : Type} (pk : Stage M Y) (gz : Stage Y Y) (b85 : Stage Y (List Char)) (m : M) :
+    restoreConstant pk gz b85 (filterPickle pk gz b85 m) = some m := by
+  simp [restoreConstant, filterPickle, segments_flatten 100 (by decide), b85.inv, gz.inv, pk.inv]
+
+/-- The blob pipeline of the Python target as a `Codec`: the reflection theorems hold for it. -/
+def pipelineCodec {M Y : Type} (pk : Stage M Y) (gz : Stage Y Y) (b85 : Stage Y (List Char)) : Codec M (List (List Char)) :=
+  ⟨filterPickle pk gz b85, restoreConstant pk gz b85, restoreConstant_filterPickle pk gz b85⟩
+
 theorem write_same {B : Type} (fs : FS B) (p : Path) (f : File B) : write fs p f p = some f := by
   simp [write]
 
